@@ -25,6 +25,18 @@ PROPS = {
             dict(name="TestHistory", quick=20000, thorough=60000, shards_thorough=16),
         ],
     ),
+    "C04": dict(
+        pkg="c04", level="exploration",
+        technique="model-based property testing of sequential histories + free-running concurrent publishers under the race detector (rapid)",
+        level_text="Random search: sequential histories against a model of Once consumption (eligible / filtered / cancelled publishes) and generated concurrent publisher programs run 20 times each on fresh buses with barrier start, drawn GOMAXPROCS and Gosched noise. Schedules are sampled, not enumerated.",
+        level_note="The concurrent part observes only the interleavings the Go scheduler produces; at-most-once / exactly-once are asserted after Wait.",
+        crash_is_violation=True,
+        assumptions=COMMON_ASSUME + ["a context cancelled before PublishContext is called is what 'already cancelled' means; cancellation during a publish is not generated here"],
+        tests=[
+            dict(name="TestSeq", quick=5000, thorough=60000, shards_thorough=8),
+            dict(name="TestConc", quick=300, thorough=2500, shards_thorough=8, race=True, shrinktime="2s"),
+        ],
+    ),
 }
 
 HOOK_COMMITS = []
